@@ -258,7 +258,7 @@ func cmdCheck(mode string, argv []string) int {
 		// at-call clauses that matched no call site cannot generate their obligation
 		if r.enc.fc != nil {
 			for _, c := range r.enc.fc.Clauses {
-				if c.Kind == "atcall" && c.hasProp(*prop) && r.enc.atCallHits[c] == 0 {
+				if c.Kind == "atcall" && !c.Optional && c.hasProp(*prop) && r.enc.atCallHits[c] == 0 {
 					undecidedClauses = append(undecidedClauses, fmt.Sprintf("%s: at-call %s matched no call site", name, c.Pat))
 				}
 			}
@@ -317,7 +317,16 @@ func cmdCheck(mode string, argv []string) int {
 	} else {
 		fmt.Fprintln(os.Stderr, "SMT files in", work)
 	}
-	opt := SolveOpts{Secs: 10, WorkDir: work}
+	opt := SolveOpts{Secs: 10, WorkDir: work, NoRetry: map[string]bool{}}
+	{
+		var kfs []KnownFinding
+		_ = readJSON(filepath.Join(*verif, "known_findings.json"), &kfs)
+		for _, k := range kfs {
+			if k.Status == "open" {
+				opt.NoRetry[k.Obligation] = true
+			}
+		}
+	}
 	if *tier == "thorough" {
 		opt.Secs = 60
 		opt.All = true
